@@ -152,7 +152,7 @@ Section ScanProofs.
     intros Hh Hrw Hnb [Hg Hr Hn]. rewrite Hh, app_nil_r in *.
     pose proof (next_block_row _ _ Hnb) as Hrow.
     destruct (next_block_hits _ _ Hh Hnb) as [He|(d & Hd & He)].
-    - rewrite He. split; rewrite app_nil_r; auto.
+    - split; rewrite He, app_nil_r; auto.
       rewrite Hrow. eapply Forall_impl; [|exact Hr]. simpl; intros; lia.
     - pose proof (Hlen _ _ _ Hd) as Hl.
       set (cands := dthreshold d (scale thr)) in *.
@@ -161,7 +161,7 @@ Section ScanProofs.
       { intros h Hin. apply in_rev in Hin. apply in_omap in Hin. destruct Hin as ([r c] & Hc & Hq).
         apply qcand_good in Hq. destruct Hq as (Hgd & Hf). split; auto.
         exists r, c. split; auto. eapply dthreshold_rows; exact Hc. }
-      rewrite He. split.
+      split; rewrite He.
       + apply Forall_app. split; auto. apply Forall_forall. intros h Hin. apply Hfm; auto.
       + apply Forall_app. split.
         * rewrite Hrow. eapply Forall_impl; [|exact Hr]. simpl; intros; lia.
@@ -216,7 +216,7 @@ Section ScanProofs.
     unfold next. destruct (next_loop (S R) s) as [s1| | |] eqn:Hl; simpl; try discriminate.
     intros H HI. destruct (next_loop_inv _ _ _ _ Hl HI) as (HI1 & Hrow).
     destruct (hits s1) as [|h tl] eqn:Hh; inversion H; subst.
-    - repeat split; auto.
+    - split; [exact HI1|split; auto].
     - eapply Inv_pop; eauto.
   Qed.
 
@@ -297,7 +297,7 @@ Section ScanProofs.
     unfold hit_new. rewrite (Hnan _ Hlt Eg). simpl. apply IH.
   Qed.
 
-  Lemma block_range s : row s < R -> row s < Nat.min (row s + B) R /\ Nat.min (row s + B) R <= R.
+  Lemma block_range (s : st) : row s < R -> row s < Nat.min (row s + B) R /\ Nat.min (row s + B) R <= R.
   Proof. intros. lia. Qed.
 
   Lemma next_block_total s : row s < R -> exists s', next_block s = Ok s'.
@@ -414,16 +414,16 @@ Section ScanProofs.
   Qed.
 
   Lemma collect_inv2 fuel : forall s H Y,
-    collect fuel s = Ok H -> Inv2 s Y -> forall s', Inv s Y ->
+    collect fuel s = Ok H -> Inv2 s Y -> Inv s Y ->
     exists s', Inv2 s' (Y ++ H) /\ Inv s' (Y ++ H) /\ hits s' = [] /\ R <= row s'.
   Proof.
-    induction fuel as [|f IH]; intros s H Y Hc HI2 _ HI; simpl in Hc; [discriminate|].
+    induction fuel as [|f IH]; intros s H Y Hc HI2 HI; simpl in Hc; [discriminate|].
     destruct (next s) as [[r s1]| | |] eqn:Hn; simpl in Hc; try discriminate.
     pose proof (next_inv2 _ _ _ _ Hn HI2) as HI21.
     pose proof (next_inv _ _ _ _ Hn HI) as HI1.
     destruct r as [h|].
     - destruct (collect f s1) as [H1| | |] eqn:Hc1; simpl in Hc; try discriminate.
-      inversion Hc; subst. destruct (IH _ _ _ Hc1 HI21 s1 HI1) as (s' & A & A' & Hh & Hr).
+      inversion Hc; subst. destruct (IH _ _ _ Hc1 HI21 HI1) as (s' & A & A' & Hh & Hr).
       exists s'. rewrite <- app_assoc in A, A'. auto.
     - inversion Hc; subst. exists s1. rewrite app_nil_r. tauto.
   Qed.
@@ -431,7 +431,7 @@ Section ScanProofs.
   Lemma Inv_length s Y : Inv s Y -> length Y <= Lm.
   Proof.
     intros HI. destruct (Inv_yielded _ _ HI) as (Hg & Hn).
-    rewrite <- (map_length fst). apply NoDup_length_le_seq; auto.
+    replace (length Y) with (length (map fst Y)) by apply map_length. apply NoDup_length_le_seq; auto.
     intros x Hx. apply in_map_iff in Hx. destruct Hx as (h & <- & Hh).
     rewrite Forall_forall in Hg. apply Hg in Hh. apply Hh.
   Qed.
@@ -480,8 +480,8 @@ Section ScanProofs.
 
   Lemma good_expected h : good h -> In h expected.
   Proof.
-    intros (Hi & Hs & Hg). apply in_expected. rewrite (Hpos _ Hi) in Hs. inversion Hs; subst.
-    unfold qualifies. auto.
+    intros (Hi & Hs & Hg). apply in_expected. rewrite (Hpos _ Hi) in Hs. inversion Hs as [E].
+    unfold qualifies. rewrite E. auto.
   Qed.
 
   Lemma exhausted_complete s H :
